@@ -1,7 +1,7 @@
 (* C05 — model arithmetic and evaluation agree with polynomial arithmetic.
    Statements only; proofs in Proofs/ArithProofs.v, ExprProofs.v, ValuesProofs.v. *)
 From QV.Model Require Import Base Matrix Arith Expr Values.
-From QV.Proofs Require Import BaseProofs KeyProofs ArithProofs ExprProofs ValuesProofs.
+From QV.Proofs Require Import BaseProofs KeyProofs ArithProofs ExprProofs ValuesProofs UniqueProofs.
 Open Scope Q_scope.
 
 (* Any expression tree over the ten model kinds, DictArithmetic, raw dicts and
@@ -82,6 +82,18 @@ Print Assumptions C05_quso_value.
 Theorem C05_squash : forall kd0 k k' e, squash kd0 k = Ok k' -> good_env kd0 e -> mon e k' == mon e k.
 Proof. exact squash_mon. Qed.
 Print Assumptions C05_squash.
+
+(* uniqueness of the canonical form (boolean kinds): a canonically stored polynomial that is 0 at every 0/1 assignment has no
+   terms, so two boolean models with equal values have the empty model as their difference -- the stored dictionary is
+   determined by the function *)
+Theorem C05_unique_zero : forall kd0 t, is_spin kd0 = false -> kd0 <> KDict -> wf kd0 t ->
+  (forall x, boolean_env x -> eval x t == 0) -> t = [].
+Proof. exact zero_poly_empty. Qed.
+Print Assumptions C05_unique_zero.
+Theorem C05_unique_sub : forall a b d, is_spin (kd a) = false -> kd a <> KDict -> wf (kd a) (tm a) ->
+  m_sub a (OModel b) = Ok d -> (forall x, boolean_env x -> eval x (tm a) == eval x (tm b)) -> tm d = [].
+Proof. exact equal_values_sub_empty. Qed.
+Print Assumptions C05_unique_sub.
 
 (* non-vacuity: a tree over a PUBO leaf, a raw dict and a scalar evaluates, and its leaves are boolean kinds *)
 Example C05_example :
